@@ -39,7 +39,22 @@ def chain(prog, fn, term):
     if cname is None or cname not in prog.fns:
         return None
     stages.append((m.group(1), cname, caps))
-    e = fn.expr(term["args"][0], 24)
+    return _upstream(prog, fn, fn.expr(term["args"][0], 24), stages)
+
+
+def chain_of_loop(prog, fn, next_term):
+    """the same for a chain drained by a `for` loop: `next_term` is the loop's `Iterator::next(&mut it)` call; the consumer stage is
+    ("for", None, ()) - the loop body, which the caller inspects in the function's own CFG"""
+    c = (next_term.get("f", {}).get("resolved") or next_term.get("f", {}).get("fn") or "")
+    if not re.search(r"Iterator>?::next$", c) or len(next_term.get("args", [])) != 1:
+        return None
+    st = _upstream(prog, fn, fn.expr(next_term["args"][0], 24), [("for", None, ())])
+    if st is None or len(st) < 3:
+        return None          # a plain range / slice loop is no pipeline
+    return st
+
+
+def _upstream(prog, fn, e, stages):
     for _ in range(12):
         while e[0] in ("ref", "deref"):
             e = e[1]
@@ -92,8 +107,8 @@ def elements(prog, fn, stages):
     sink = None
     for pos, st in enumerate(stages[1:], 1):
         kind, cn, caps = st
-        cf = prog.fns[cn]
-        if len(cf.live_blocks()) > 6 and kind not in ("for_each", "try_for_each"):
+        cf = prog.fns[cn] if cn is not None else None
+        if cf is not None and len(cf.live_blocks()) > 6 and kind not in ("for_each", "try_for_each"):
             return None                   # not a one-expression closure
         if kind == "map":
             r = _ret_expr(cf)
@@ -114,6 +129,8 @@ def elements(prog, fn, stages):
             continue
         elif kind in ("for_each", "try_for_each"):
             sink = (cf, caps, kind)
+        elif kind == "for":
+            sink = (None, (), "for")
         else:
             return None
     return elems, stops, sink
